@@ -163,7 +163,7 @@ func l3ScanBracket(fn bool, s []rune) l3Bracket {
 			if loIsDash {
 				b.supported = false
 			}
-			if r2[0] == '\\' || r2[0] == '[' {
+			if r2[0] == '\\' || r2[0] == '[' || r2[0] == '-' {
 				b.supported = false
 			}
 			hi, hesc, r3, ok := l3ElemChar(r2)
@@ -178,6 +178,9 @@ func l3ScanBracket(fn bool, s []rune) l3Bracket {
 				if hi == '[' && len(r3) > 0 && (r3[0] == ':' || r3[0] == '.' || r3[0] == '=') {
 					b.dashQuirk = true
 				}
+			}
+			if hi == '-' && !hesc && len(r3) > 0 && r3[0] != ']' && '-' > r3[0] {
+				b.dashQuirk = true // the end of the range is itself checked as a dash
 			}
 			if fn && hi == '/' {
 				b.slash = true
